@@ -398,6 +398,7 @@ fn src_strategy() -> BoxedStrategy<Src> {
         2 => Just(Second::Negated),
         2 => Just(Second::PartnerSame),
         2 => Just(Second::PartnerInverse),
+        2 => (0u8..6, any::<bool>()).prop_map(|(k, n)| Second::SharedIntermediate(k, n)),
     ];
     prop_oneof![
         1 => Just(Src::Gen),
@@ -472,6 +473,13 @@ impl SafeGrp for G1m {
                     None => a.clone(),
                 }
             }
+            Second::SharedIntermediate(kind, neg) => match super::c14::shared_intermediate(&h2c::z1(), &a, *kind, *neg) {
+                Some(p) => {
+                    info.class("source:map2-shared-intermediate");
+                    p
+                }
+                None => a.clone(),
+            },
         };
         <crt::G1 as MapToCurve<crt::G1>>::map2_to_curve(&fq_c(&a), &fq_c(&b))
     }
@@ -512,6 +520,13 @@ impl SafeGrp for G2m {
                     None => a.clone(),
                 }
             }
+            Second::SharedIntermediate(kind, neg) => match super::c14::shared_intermediate(&h2c::z2(), &a, *kind, *neg) {
+                Some(p) => {
+                    info.class("source:map2-shared-intermediate");
+                    p
+                }
+                None => a.clone(),
+            },
         };
         <crt::G2 as MapToCurve<crt::G2>>::map2_to_curve(&fq2_c(&a), &fq2_c(&b))
     }
